@@ -81,7 +81,7 @@ def judge(res: Result, case, outs, partitions):
             return
         if o["done"] != ntasks:
             res.violation({"clause": "tasks_never_finish", "partition": "const" if len(part) == 1 else "seq"}, pc,
-                          {"done": o["done"], "calls": o["calls"]})
+                          {"done": o["done"], "calls": o["calls"], "stalled": o.get("stalled")})
             return
         log = [tuple(x[:3]) for x in o["log"]]
         # ---- wake-time exactness and monotone virtual time ------------------------------------------------------
